@@ -34,4 +34,6 @@ def build_registry():
     oracles.attach(reg)
     from vlib import native_file
     native_file.attach(reg)
+    from vlib import native_notes
+    native_notes.attach(reg)
     return reg
